@@ -57,6 +57,7 @@ func (l *IANURIFQDNOrIP) CheckApplies(c *x509.Certificate) bool {
 	return util.IsExtInCert(c, util.IssuerAlternateNameOID)
 }
 
+//nolint:nestif
 func (l *IANURIFQDNOrIP) Execute(c *x509.Certificate) *lint.LintResult {
 	for _, uri := range c.IANURIs {
 		if uri != "" {
@@ -64,9 +65,15 @@ func (l *IANURIFQDNOrIP) Execute(c *x509.Certificate) *lint.LintResult {
 			if err != nil {
 				return &lint.LintResult{Status: lint.Error}
 			}
-			host := parsedUrl.Host
-			if !util.AuthIsFQDNOrIP(host) {
-				return &lint.LintResult{Status: lint.Error}
+			if parsedUrl.Opaque == "" {
+				// if Opaque is not empty, that means there is no authority, which means that the URI is vacuously OK
+				// (same rule as e_ext_san_uri_host_not_fqdn_or_ip)
+				if parsedUrl.Host == "" {
+					return &lint.LintResult{Status: lint.Error}
+				}
+				if !util.IsFQDNOrIP(parsedUrl.Host) {
+					return &lint.LintResult{Status: lint.Error}
+				}
 			}
 		}
 	}
